@@ -9,6 +9,7 @@ package csched
 import (
 	"fmt"
 	"runtime/debug"
+	"sort"
 	"strings"
 )
 
@@ -391,4 +392,49 @@ func Copy[E any](dst, src []E) int {
 	Yield("copy-mid")
 	copy(dst[h:n], src[h:n])
 	return n
+}
+
+// MapOrder returns the keys of m in an order chosen by the explorer: Go leaves
+// the iteration order of maps unspecified, so every order is a behaviour.  The
+// default (choice 0) is the order of the keys' printed form; maps of up to 4
+// keys get all permutations, larger ones all rotations of that order and of
+// its reverse.  Each non-default order costs one deviation.
+func MapOrder[M ~map[K]V, K comparable, V any](m M) []K {
+	keys := make([]K, 0, len(m))
+	for k := range m {
+		keys = append(keys, k)
+	}
+	sort.Slice(keys, func(i, j int) bool { return fmt.Sprint(keys[i]) < fmt.Sprint(keys[j]) })
+	n := len(keys)
+	if n < 2 || S == nil || S.aborting {
+		return keys
+	}
+	if n <= 4 {
+		f := 1
+		for i := 2; i <= n; i++ {
+			f *= i
+		}
+		c := Choose(f, 1)
+		// c-th permutation (factorial number system)
+		pool := append([]K(nil), keys...)
+		out := make([]K, 0, n)
+		for i := n; i >= 1; i-- {
+			f /= i
+			idx := c / f
+			c %= f
+			out = append(out, pool[idx])
+			pool = append(pool[:idx], pool[idx+1:]...)
+		}
+		return out
+	}
+	c := Choose(2*n, 1)
+	out := make([]K, n)
+	for i := range out {
+		if c < n {
+			out[i] = keys[(i+c)%n]
+		} else {
+			out[i] = keys[(2*n-1-i-(c-n)+n)%n]
+		}
+	}
+	return out
 }
